@@ -74,7 +74,7 @@ func NewFS(r *Recorder, im *Image) *FS {
 var _ types.VFS = (*FS)(nil)
 
 func (fs *FS) ListDir(dir string) ([]string, error) {
-	_, f, err := fs.R.begin(Ev{Src: "vfs", Call: "list"}, false)
+	seq, f, err := fs.R.begin(Ev{Src: "vfs", Call: "list"}, false)
 	if err != nil {
 		return nil, err
 	}
@@ -88,6 +88,7 @@ func (fs *FS) ListDir(dir string) ([]string, error) {
 		names = append(names, n)
 	}
 	sort.Strings(names)
+	fs.R.setNames(seq, names)
 	return names, nil
 }
 
